@@ -201,6 +201,7 @@ theorem sim_flush_aux : r.aux.map (fun x => Tree.flush x c.a)
     simp only [Option.map_some]
     rw [Tree.flush_rec0 x c.a (by rw [hX.ver]; exact hpos)]
 
+omit hs in
 theorem main_flush_version_pos : 0 < (a.main.flush c.m).version := by
   obtain ⟨_, _, hv, _, _, _⟩ := Tree.flush_keeps a.main c.m h.main.staged
   rw [hv, h.main.ver]; exact hpos
@@ -214,7 +215,7 @@ theorem sim_dM : r.dM c height = a.dM c height := by
   · exact hs.cfg
   · exact hs.db
   · rfl
-  · exact main_flush_version_pos hs h hpos c
+  · exact main_flush_version_pos h hpos c
   · intro v hv
     show (a.main.flush c.m).initialVersion ≤ v
     rw [hi]
@@ -232,7 +233,7 @@ theorem sim_a3 : (r.a3 c height).cfg = (a.a3 c height).cfg ∧ (r.a3 c height).d
     (a.mw c height).coll ++ ((a.mw c height).main.saveOps ++ a.dM c height)
   rw [sim_dM hs h hpos c height]
   have hm : (r.mw c height).main = ((a.mw c height).main).rec0 := sim_flush_main hs h hpos c
-  have hvp : 0 < (a.mw c height).main.version := main_flush_version_pos hs h hpos c
+  have hvp : 0 < (a.mw c height).main.version := main_flush_version_pos h hpos c
   rw [hm, Tree.saveOps_rec0 _ hvp]
   rfl
 
@@ -267,8 +268,8 @@ theorem sim_blockBatch : blockBatch r c height = blockBatch a c height := by
   simp only
   rw [sim_dM hs h hpos c height, sim_dX hs h hpos c height, sim_flush_main hs h hpos c,
     sim_flush_aux hs h hpos c, hs.nextVersion hpos,
-    Tree.saveOps_rec0 _ (main_flush_version_pos hs h hpos c),
-    Tree.saved_rec0 _ (main_flush_version_pos hs h hpos c), Tree.info_rec0]
+    Tree.saveOps_rec0 _ (main_flush_version_pos h hpos c),
+    Tree.saved_rec0 _ (main_flush_version_pos h hpos c), Tree.info_rec0]
   cases hax : a.aux with
   | none => rfl
   | some x =>
@@ -287,7 +288,7 @@ theorem sim_lastInfo (B B' : List WOp) :
     = (afterBlock a B (a.main.flush c.m).saved ((a.aux.map (fun x => Tree.flush x c.a)).map Tree.saved)).lastInfo := by
   simp only [afterBlock]
   rw [sim_flush_main hs h hpos c, sim_flush_aux hs h hpos c,
-    Tree.saved_rec0 _ (main_flush_version_pos hs h hpos c), Tree.info_rec0]
+    Tree.saved_rec0 _ (main_flush_version_pos h hpos c), Tree.info_rec0]
   cases hax : a.aux with
   | none => rfl
   | some x =>
@@ -312,7 +313,7 @@ theorem commit_sim :
     · simp only [afterBlock]
       rw [sim_blockBatch hs h hpos c height, hs.db]
     · simp only [afterBlock]
-      rw [sim_flush_main hs h hpos c, Tree.saved_rec0 _ (main_flush_version_pos hs h hpos c)]
+      rw [sim_flush_main hs h hpos c, Tree.saved_rec0 _ (main_flush_version_pos h hpos c)]
     · simp only [afterBlock]
       rw [sim_flush_aux hs h hpos c]
       cases hax : a.aux with
